@@ -693,6 +693,51 @@ func r29WrapperTransparent(c *core.Ctx) {
 
 // ---------------------------------------------------------------- R30
 
+// passOver: one pass over a slice X, as `for _, v := range X` or as `for i := 0; i < len(X); i++` with X[i].
+type passOver struct {
+	node ast.Stmt
+	X    ast.Expr
+	Body *ast.BlockStmt
+	val  types.Object // range value variable
+	idx  types.Object // counter of the counted form
+}
+
+func asPassOver(info *types.Info, s ast.Stmt) *passOver {
+	switch l := s.(type) {
+	case *ast.RangeStmt:
+		if l.Value == nil {
+			return nil
+		}
+		return &passOver{node: l, X: l.X, Body: l.Body, val: core.ObjOf(info, l.Value)}
+	case *ast.ForStmt:
+		if x := countedLoopOver(info, l); x != nil {
+			init := l.Init.(*ast.AssignStmt)
+			return &passOver{node: l, X: x, Body: l.Body, idx: core.ObjOf(info, init.Lhs[0])}
+		}
+	}
+	return nil
+}
+
+// isElem: e is the element of the current iteration (the range value, or X[i]; also a local set to it once).
+func (p *passOver) isElem(info *types.Info, e ast.Expr) bool {
+	e = ast.Unparen(e)
+	if p.val != nil && core.ObjOf(info, e) == p.val {
+		return true
+	}
+	if ix, ok := e.(*ast.IndexExpr); ok && p.idx != nil {
+		return core.ObjOf(info, ix.Index) == p.idx && core.SameObj(info, ix.X, p.X)
+	}
+	if id, ok := e.(*ast.Ident); ok && p.idx != nil {
+		// part := X[i] as a statement of the body
+		for _, st := range p.Body.List {
+			if as, ok := st.(*ast.AssignStmt); ok && as.Tok == token.DEFINE && len(as.Lhs) == 1 && len(as.Rhs) == 1 && core.ObjOf(info, as.Lhs[0]) == core.ObjOf(info, id) {
+				return p.isElem(info, as.Rhs[0])
+			}
+		}
+	}
+	return false
+}
+
 func r30MultiPolygonMerge(c *core.Ctx) {
 	const R = "R30"
 	f := c.Anchor(R, "processing.processMultiPolygon")
@@ -702,9 +747,9 @@ func r30MultiPolygonMerge(c *core.Ctx) {
 	info := f.Pkg.TypesInfo
 	sig := f.Obj.Type().(*types.Signature)
 	pMulti, pIDs, pF := sig.Params().At(0), sig.Params().At(1), sig.Params().At(2)
-	var outer *ast.RangeStmt
+	var outer *passOver
 	for _, s := range f.Decl.Body.List {
-		if r, ok := s.(*ast.RangeStmt); ok && core.ObjOf(info, r.X) == pMulti {
+		if r := asPassOver(info, s); r != nil && core.ObjOf(info, r.X) == pMulti {
 			outer = r
 		}
 	}
@@ -722,7 +767,6 @@ func r30MultiPolygonMerge(c *core.Ctx) {
 		}
 		return true
 	})
-	part := core.ObjOf(info, outer.Value)
 	// call f(part, ids)
 	var callRes types.Object
 	var mid *ast.RangeStmt
@@ -734,7 +778,7 @@ func r30MultiPolygonMerge(c *core.Ctx) {
 		case *ast.AssignStmt:
 			if len(st.Rhs) == 1 {
 				if call, ok := st.Rhs[0].(*ast.CallExpr); ok && core.ObjOf(info, call.Fun) == pF && len(call.Args) == 2 {
-					okCall = core.ObjOf(info, call.Args[0]) == part && part != nil && core.ObjOf(info, call.Args[1]) == pIDs
+					okCall = outer.isElem(info, call.Args[0]) && core.ObjOf(info, call.Args[1]) == pIDs
 					callRes = core.ObjOf(info, st.Lhs[0])
 				}
 			}
@@ -777,7 +821,7 @@ func r30MultiPolygonMerge(c *core.Ctx) {
 			}
 		}
 	}
-	c.Check(R, "every-part-snapped-with-all-ids/"+f.Name, outer.Pos(), okCall && !jump && mid != nil,
+	c.Check(R, "every-part-snapped-with-all-ids/"+f.Name, outer.node.Pos(), okCall && !jump && mid != nil,
 		"every part is passed to f with the unchanged id list, no part is skipped", "a part of the multipolygon is skipped or snapped with a different id list")
 	if mid == nil {
 		return
@@ -806,8 +850,12 @@ func r30MultiPolygonMerge(c *core.Ctx) {
 		// appended element: the inner range value over `val`
 		path := pathTo(mid.Body, as)
 		for _, pn := range path {
-			if inner, ok := pn.(*ast.RangeStmt); ok && core.ObjOf(midInfo, inner.X) == val && val != nil {
-				if core.ObjOf(midInfo, call.Args[1]) == core.ObjOf(midInfo, inner.Value) {
+			st, isStmt := pn.(ast.Stmt)
+			if !isStmt {
+				continue
+			}
+			if inner := asPassOver(midInfo, st); inner != nil && core.ObjOf(midInfo, inner.X) == val && val != nil {
+				if inner.isElem(midInfo, call.Args[1]) {
 					okAppend = true
 					resMap = midMapArg(core.ObjOf(midInfo, lix.X))
 				}
